@@ -169,7 +169,10 @@ class TSet(Type):
         v = deref(v)
         if isinstance(v, TupV) and not v.items:
             return [z3.K(self.K.sort, z3.BoolVal(False))]
-        assert isinstance(v, SetV), v
+        if isinstance(v, Con) and isinstance(v.v, (set, frozenset)) and not v.v:
+            return [z3.K(self.K.sort, z3.BoolVal(False))]
+        if not isinstance(v, SetV):
+            raise OutOfSubset('cannot coerce %r to %r' % (v, self))
         return [v.arr]
 
     def empty(self):
@@ -194,12 +197,13 @@ class TDict(Type):
         v = deref(v)
         if isinstance(v, Con) and v.v == {}:
             v = self.empty()
-        assert isinstance(v, DictV), v
+        if not isinstance(v, DictV):
+            raise OutOfSubset('cannot coerce %r to %r' % (v, self))
         return [v.dom] + list(v.vals)
 
     def empty(self, tag='e'):
         return DictV(self.K, self.V, z3.K(self.K.sort, z3.BoolVal(False)),
-                     [z3.Const('dflt_%s_%d' % (s.name().replace(' ', '_'), i),
+                     [z3.Const('dflt_%s_%s_%d' % (self.K.sort.name(), _sort_id(s), i),
                                z3.ArraySort(self.K.sort, s))
                       for i, s in enumerate(self.V.leaf_sorts())])
 
@@ -222,7 +226,8 @@ class TList(Type):
         v = deref(v)
         if isinstance(v, TupV):
             v = list_from_items(self.E, v.items)
-        assert isinstance(v, ListV), v
+        if not isinstance(v, ListV):
+            raise OutOfSubset('cannot coerce %r to %r' % (v, self))
         return [v.n] + list(v.ats)
 
     def empty(self):
@@ -274,7 +279,7 @@ class TOpt(Type):
         v = deref(v)
         if isinstance(v, Con) and v.v is None:
             return [z3.BoolVal(True)] + [
-                z3.Const('dfl_opt_%d' % i, s)
+                z3.Const('dfl_opt_%s_%d' % (_sort_id(s), i), s)
                 for i, s in enumerate(self.T.leaf_sorts())]
         if isinstance(v, OptV):
             return [v.isnone] + self.T.to_leaves(v.val)
@@ -299,8 +304,15 @@ def deref(v):
     return v
 
 
+def _sort_id(s):
+    """Printable, injective-enough name of a sort (array sorts all print as
+    'Array')."""
+    import re
+    return re.sub(r'[^A-Za-z0-9]+', '_', s.sexpr()).strip('_')
+
+
 def list_from_items(E, items):
-    ats = [z3.Const('lst0_%s_%d' % (s.name().replace(' ', '_'), i),
+    ats = [z3.Const('lst0_%s_%d' % (_sort_id(s), i),
                     z3.ArraySort(z3.IntSort(), s))
            for i, s in enumerate(E.leaf_sorts())]
     for idx, it in enumerate(items):
